@@ -25,7 +25,7 @@ var stdMethods = []methodInfo{
 	{"Noop", nil}, {"Const", nil}, {"Err", nil}, {"ErrNil", nil}, {"ValErr", []string{"bool"}}, {"EchoInt", []string{"int"}},
 	{"Add", []string{"int", "int"}}, {"EchoStr", []string{"str"}}, {"Not", []string{"bool"}}, {"Sum", []string{"ints"}},
 	{"Raw1", []string{"any"}}, {"RawP", []string{"raw"}}, {"Panic", nil}, {"PanicInt", []string{"int"}}, {"Ctx", []string{"int"}},
-	{"Chan", nil}, {"CodeErr", []string{"int"}}, {"PanicNilMap", nil}, {"PanicDeref", nil}, {"PanicCustom", nil}, {"PanicAbort", nil}, {"PanicOpaque", nil},
+	{"Chan", nil}, {"CodeErr", []string{"int"}}, {"PanicNilMap", nil}, {"PanicDeref", nil}, {"PanicCustom", nil}, {"PanicAbort", nil}, {"PanicOpaque", nil}, {"PanicCoded", nil},
 }
 
 var intPool = []string{"0", "1", "-1", "42", "-0", "9007199254740991", "-9007199254740991", "9223372036854775807", "-9223372036854775808", "123456789"}
@@ -470,6 +470,16 @@ func httpOracle(c *httpCase, body []byte) string {
 			return fmt.Sprintf("the batch holds %d request(s) that are not notifications (%v) but the reply holds only %d response object(s)", answered, c.Expect, len(elems))
 		}
 	}
+	// a handler that panicked: its caller's error says so (whatever the panic's payload was, a registered error type included)
+	if !c.Batch && len(elems) == 1 && len(c.Invs) == 1 && strings.HasPrefix(c.Invs[0].Name, "Panic") {
+		if m, ok := elems[0].(map[string]interface{}); ok {
+			em, _ := m["error"].(map[string]interface{})
+			msg, _ := em["message"].(string)
+			if em == nil || !strings.Contains(msg, "panic") {
+				return fmt.Sprintf("handler %s panicked but its caller's reply does not mention a panic: %s", c.Invs[0].Name, truncate(string(reply), 200))
+			}
+		}
+	}
 	// an alias is followed for one hop only: "A2" names the alias "Alias.Const" (itself an alias, not a method) and
 	// "Alias.Missing" names a method that does not exist; neither may run anything
 	if !c.Batch && len(elems) == 1 {
@@ -520,13 +530,17 @@ func httpBodiesFamily(seed uint64, tier string, args []string) {
 		`{"jsonrpc":"2.0","id":9,"method":"H.Const"} trailing`,
 		`{"jsonrpc":"2.0","id":9,"method":"H.Const"}{"jsonrpc":"2.0","id":10,"method":"H.Const"}`,
 		`[{"method":"H.Noop"},{"method":"H.Noop"}]`,
-		`{"method":"H.Noop"}`, `{"method":"H.Panic"}`, `{"id":1,"method":"H.PanicAbort"}`, `{"id":"x","method":"H.PanicNilMap"}`, `[{"id":1,"method":"H.PanicDeref"},{"id":2,"method":"H.Const"},{"method":"H.PanicCustom"},{"id":3,"method":"H.PanicCustom"}]`, `{"id":3,"method":"H.Panic"}`, `{"id":4,"method":"H.PanicOpaque"}`, `[{"id":5,"method":"H.PanicOpaque"},{"id":6,"method":"H.Const"}]`, `[{"method":"H.Panic"},{"id":1,"method":"H.Const"}]`,
+		`{"method":"H.Noop"}`, `{"method":"H.Panic"}`, `{"id":1,"method":"H.PanicAbort"}`, `{"id":"x","method":"H.PanicNilMap"}`, `[{"id":1,"method":"H.PanicDeref"},{"id":2,"method":"H.Const"},{"method":"H.PanicCustom"},{"id":3,"method":"H.PanicCustom"}]`, `{"id":3,"method":"H.Panic"}`, `{"id":4,"method":"H.PanicOpaque"}`, `{"id":41,"method":"H.PanicCoded"}`, `[{"id":42,"method":"H.PanicCoded"},{"id":43,"method":"H.CodeErr","params":[3]}]`, `[{"id":5,"method":"H.PanicOpaque"},{"id":6,"method":"H.Const"}]`, `[{"method":"H.Panic"},{"id":1,"method":"H.Const"}]`,
 		`[]`, ``, `   `, `[ ]`, `{}`, `null`, `[null]`, `5`, `"x"`, `[1,2]`, `[[]]`, `{"id":5,"method":7}`, `{"id":[1],"method":7}`,
 		`{"id":1,"method":"H.Const","params":[1,2]}`, `{"id":1,"method":"H.Const","params":{"a":1}}`, `{"id":1,"method":"H.Const","params":"x"}`,
 		`{"id":1,"method":"H.Chan"}`, `{"id":1,"method":"H.CodeErr","params":[5]}`, `{"id":1,"method":"H.EchoInt","params":[7]}`,
 		`{"id":1,"method":"Alias.Const"}`, `{"id":1,"method":"A2"}`, `{"id":1,"method":"Alias.Missing"}`,
 		" {\"id\":1,\"method\":\"H.Const\"}\u0085", "\v[{\"id\":1,\"method\":\"H.Const\"}]\f",
 		`[{"id":1,"method":"H.Const"}] x ]`, `[{"id":1,"method":"H.Const"}`, `{"id":1,"method":"H.Const"}]`,
+	}
+	for _, sc := range []string{"", "AAAA", strings.Repeat("A", 39) + "=", strings.Repeat("A", 44), strings.Repeat("QUJD", 16), strings.Repeat("A", 400), "!!!not-base64"} {
+		corpus = append(corpus, fmt.Sprintf(`{"jsonrpc":"2.0","id":77,"method":"H.Const","meta":{"SpanContext":%q}}`, sc))
+		corpus = append(corpus, fmt.Sprintf(`[{"jsonrpc":"2.0","id":78,"method":"H.Const","meta":{"SpanContext":%q}},{"jsonrpc":"2.0","id":79,"method":"H.Const"}]`, sc))
 	}
 	for i, b := range corpus {
 		emitCase(&httpCase{Kind: "special", Runs: -1, Fmt: 0, Max: -1, Via: []string{"servehttp", "handlerequest"}[i%2]}, []byte(b))
